@@ -11,6 +11,8 @@ import (
 	"sort"
 
 	. "vh/kit"
+
+	"github.com/notaryproject/notation-go/verifbridge"
 )
 
 // the semver-ordered version set of the property (strictly increasing precedence)
@@ -505,17 +507,36 @@ func randVersion(r *Rng, ok bool) string {
 	return v
 }
 
+// verifbridgeValid only organises the fixed list (which pairs are generated); what is
+// valid is observed from the implementation for every case and decided in Coq by the regex.
+func verifbridgeValid(v string) bool { return verifbridge.SemverIsValid(v) }
+
 func genCompare(a *Args, rng *Rng) []caseSpec {
 	var out []caseSpec
 	vs := allVersions()
 	vs = append(vs, "", "1.0.0-0", "1.0.0-00", "1.0.0--", "1.0.0-0a", "1.0.0-a.b.c", "1.0.0-a.b", "1.0.0-1.2.3", "1.0.0-1.2", "0.0.0", "0.0.1",
 		"1.0.0-beta.2.1", "1.0.0-beta.02", "1.0.0-BETA", "1.0.0-beta+11", "1.2.3.4", "1.0.0-\xc3\xa9", "1.0.0\n", "1.0.0-9", "1.0.0-10", "1.0.0-9a", "1.0.0-A", "1.0.0-a")
+	// every ordered pair of the valid ones; every invalid one against itself and a few valid ones
+	var valid, invalid []string
 	for _, v := range vs {
-		for _, w := range vs {
+		if verifbridgeValid(v) {
+			valid = append(valid, v)
+		} else {
+			invalid = append(invalid, v)
+		}
+	}
+	for _, v := range valid {
+		for _, w := range valid {
 			out = append(out, caseSpec{Cmp: &cmpSpec{V: v, W: w}})
 		}
 	}
-	n := 800
+	for i, v := range invalid {
+		out = append(out, caseSpec{Cmp: &cmpSpec{V: v, W: v}})
+		for _, w := range []string{"1.0.0", valid[i%len(valid)], invalid[(i+1)%len(invalid)]} {
+			out = append(out, caseSpec{Cmp: &cmpSpec{V: v, W: w}}, caseSpec{Cmp: &cmpSpec{V: w, W: v}})
+		}
+	}
+	n := 1200
 	if a.Tier == "thorough" {
 		n = 20000
 	}
